@@ -251,7 +251,20 @@ def rule_header_cascade(ctx):
     ctx.ob("header octets consumed == RFC header length", not bad.any(),
            f"{int(bad.sum())} cells: consumed header length differs (first {dom.describe(int(np.argmax(bad)))} "
            f"got {int(runA.consumed[int(np.argmax(bad))]) if bad.any() else ''})", fn.loc())
-    hl = runA.vec.env.get("frame_header_len")
+    # the computed header length is the local that the header branch compares with the number of buffered octets (whatever it is called)
+    from .common import local_canon, canon_text
+    lc = local_canon(fn)
+    hl_names = set()
+    hdr_top = [s_ for s_ in fn.node.body if isinstance(s_, ast.If) and norm.text(s_.test) == "self.current_frame is None"]
+    ctx.require(len(hdr_top) == 1, "processData: `if self.current_frame is None` split not found")
+    for cmp_ in (x_ for st_ in hdr_top[0].body for x_ in [st_] + list(walk_no_defs(st_))):
+        if isinstance(cmp_, ast.Compare) and len(cmp_.ops) == 1 and isinstance(cmp_.ops[0], (ast.GtE, ast.LtE, ast.Lt, ast.Gt)):
+            a_, b_ = cmp_.left, cmp_.comparators[0]
+            for x_, y_ in ((a_, b_), (b_, a_)):
+                if canon_text(fn, x_, lc) == "len(self.data)" and isinstance(y_, ast.Name):
+                    hl_names.add(y_.id)
+    ctx.require(len(hl_names) == 1, f"header-length local not identified (compared with len(self.data): {sorted(hl_names)})")
+    hl = runA.vec.env.get(next(iter(hl_names)))
     ctx.require(isinstance(hl, np.ndarray), "frame_header_len no longer computed in the header branch")
     reached = runA.consumed_mask
     bad = reached & (hl != exphdr)
@@ -811,13 +824,20 @@ def rule_control_dispatch(ctx):
     ctx.ob("every legal ping payload (0..125 octets) is echoed in a pong; longer control payloads are never written [15 cells]", not probs, "; ".join(probs[:2]), op.loc())
     pcf = wsp.methods["processControlFrame"]
     g2, mf2, res2 = an.get(pcf)
+    # the assembled control payload: the local (whatever its name) or the expression itself handed to the handlers
+    JOIN = "b''.join(self.control_frame_data)"
+    pd = [n for n in g2.stmt_nodes() if n.kind == "stmt" and isinstance(n.ast, ast.Assign) and len(n.ast.targets) == 1 and isinstance(n.ast.targets[0], ast.Name)
+          and norm.text(n.ast.value).replace('"', "'") == JOIN]
+    pnames = {n.ast.targets[0].id for n in pd}
+    others = [n for n in g2.stmt_nodes() if n.kind == "stmt" and isinstance(n.ast, (ast.Assign, ast.AugAssign)) and
+              any(isinstance(t_, ast.Name) and t_.id in pnames for t_ in (n.ast.targets if isinstance(n.ast, ast.Assign) else [n.ast.target])) and n not in pd]
     for opcode, cb in ((9, "_onPing"), (10, "_onPong")):
         cs = [(n, c) for n in g2.stmt_nodes() for c in node_calls(n) if self_call(c, cb)]
-        ok = len(cs) == 1 and ("eq", "self.current_frame.opcode", ("c", opcode), True) in mf2.at(cs[0][0]) and \
-            [norm.text(a) for a in cs[0][1].args] == ["payload"]
+        ok = len(cs) == 1 and ("eq", "self.current_frame.opcode", ("c", opcode), True) in mf2.at(cs[0][0]) and len(cs[0][1].args) == 1 and \
+            ((isinstance(cs[0][1].args[0], ast.Name) and cs[0][1].args[0].id in pnames) or norm.text(cs[0][1].args[0]).replace('"', "'") == JOIN)
         ctx.ob(f"opcode {opcode} -> {cb}(payload)", ok, f"control dispatch for opcode {opcode} changed", pcf.loc())
-    pd = [n for n in g2.stmt_nodes() if n.kind == "stmt" and isinstance(n.ast, ast.Assign) and norm.text(n.ast.targets[0]) == "payload"]
-    ok = len(pd) == 1 and norm.text(pd[0].ast.value).replace('"', "'") == "b''.join(self.control_frame_data)"
+    ok = len(pd) <= 1 and not others and (len(pd) == 1 or all(
+        any(norm.text(c.args[0]).replace('"', "'") == JOIN for n in g2.stmt_nodes() for c in node_calls(n) if self_call(c, cb) and c.args) for cb in ("_onPing", "_onPong")))
     ctx.ob("control payload is the concatenation of the received control frame data", ok, "payload assembly changed", pcf.loc())
 
 
